@@ -20,6 +20,11 @@ var verPool = []string{"1.0.0", "1.0.1", "1.2.0", "2.0.0", "2.0.0-rc.1", "2.0.0-
 var badVers = []string{"latest", "1.2.3.4", "", "a.b.c", "1.0.0-", "01.2.3"}
 var verQueries = []string{"", "", "1.0.0", "2.0.0", "2.0.0-rc.1", "^1.0.0", "~1.2", ">=1.0.0 <2.0.0", ">1.0.0-0", "*", "1.x", ">=2.0.0-alpha", "<1.0.0", "bogus constraint", "v1.5.0", "1.5", "^2.0.0-0", "3", "=1.0.1", "!=2.0.0", ">= 1.2, < 3.0.0-0", "1.0.0+build5", "~2.0.0-rc"}
 
+// entries of equal precedence (build metadata, leading v, partial versions): their relative order after
+// loading is unspecified, but a query by the exact version string must still find its own entry
+var tiePool = []string{"1.2.3", "v1.2.3", "1.2.3+build.1", "1.2.3+build.2", "1.0.0", "v1.0.0", "1.0.0+build5", "1.0.0+build6", "2.0.0-rc.1", "2.0.0-rc.1+x", "v2.0.0-rc.1", "1.5", "1.5.0", "v1.5.0", "v1.5", "0.9.0", "3.0.0"}
+var tieQueries = []string{"", "^1.0.0", "~1.2", "*", ">=1.0.0", "1.x", ">=2.0.0-0", "1.2.4"}
+
 type idxEntry struct {
 	null    bool
 	noName  bool
@@ -105,6 +110,7 @@ func corrIndex(seed uint64, n int, tier string, out string, replay string) {
 		var es []idxEntry
 		used := map[string]bool{}
 		nulls := i%5 == 3
+		ties := i%4 == 2
 		for j := 0; j < ne; j++ {
 			e := idxEntry{}
 			switch k := r.Intn(100); {
@@ -112,6 +118,8 @@ func corrIndex(seed uint64, n int, tier string, out string, replay string) {
 				e.null = true
 			case k < 18:
 				e.version = Pick(r, badVers)
+			case ties:
+				e.version = Pick(r, tiePool)
 			default:
 				e.version = Pick(r, verPool)
 			}
@@ -123,6 +131,9 @@ func corrIndex(seed uint64, n int, tier string, out string, replay string) {
 				} else {
 					key = "invalid"
 				}
+				if ties && key != "invalid" {
+					key = e.version
+				}
 				if used[key] {
 					continue
 				}
@@ -132,12 +143,12 @@ func corrIndex(seed uint64, n int, tier string, out string, replay string) {
 			}
 			es = append(es, e)
 		}
-		indexCase(m, rep, r, dir, es, seed, i)
+		indexCase(m, rep, r, dir, es, seed, i, ties)
 	}
 	rep.Write(out, m)
 }
 
-func indexCase(m *Model, rep *Report, r *Rng, dir string, es []idxEntry, seed uint64, idx int) {
+func indexCase(m *Model, rep *Report, r *Rng, dir string, es []idxEntry, seed uint64, idx int, ties bool) {
 	content := indexYAML(es)
 	cs := map[string]any{"index": content}
 	rep.Count(cs, len(es) >= 2)
@@ -188,7 +199,14 @@ func indexCase(m *Model, rep *Report, r *Rng, dir string, es []idxEntry, seed ui
 			loaded = append(loaded, idOf[cv.Version])
 		}
 	}
-	if want["res"] == "panic" || !jsonEqual(orEmpty(loaded), want["ids"]) {
+	sameLoad := jsonEqual(orEmpty(loaded), want["ids"])
+	if ties && !sameLoad {
+		// equal precedence: the order inside a tie is the sort's business (sort.Sort is not stable); the set of
+		// loaded entries must agree, the order is covered by the sortedness monitor below
+		a, b := sortedIDs(loaded), sortedIDs(want["ids"])
+		sameLoad = a != "" && a == b
+	}
+	if want["res"] == "panic" || !sameLoad {
 		rep.Issue(Issue{Kind: "disagreement", Fingerprint: "C18:model:load", What: "loaded entries (order, content) differ from model", Case: cs, Model: want, Impl: loaded, Seed: seed, Index: idx})
 		return
 	}
@@ -209,6 +227,15 @@ func indexCase(m *Model, rep *Report, r *Rng, dir string, es []idxEntry, seed ui
 	// queries
 	for q := 0; q < 3; q++ {
 		query := Pick(r, verQueries)
+		if ties {
+			query = Pick(r, tieQueries)
+			if len(es) > 0 && r.Chance(70) {
+				if e := Pick(r, es); !e.null {
+					query = e.version
+				}
+			}
+			rep.H("tie-query")
+		}
 		cstr := query
 		if cstr == "" {
 			cstr = "*"
@@ -298,4 +325,18 @@ func indexCase(m *Model, rep *Report, r *Rng, dir string, es []idxEntry, seed ui
 		}
 	}
 	rep.Traces++
+}
+
+// sortedIDs: canonical form of a list of entry ids (no nulls expected in tie cases), "" if not a list
+func sortedIDs(v any) string {
+	l, ok := v.([]any)
+	if !ok {
+		return ""
+	}
+	var out []string
+	for _, x := range l {
+		out = append(out, fmt.Sprint(x))
+	}
+	sort.Strings(out)
+	return strings.Join(out, ",")
 }
